@@ -56,7 +56,6 @@ TDec ==
           /\ C("MustAccept", d.res = "ok" => e.res = "ok")
           /\ C("NoTrailingOctets", (d.res = "err" /\ d.why = "trailing") => e.res = "err")
           /\ C("MustReject", (d.res = "err" /\ d.why = "short") => e.res = "err")
-          /\ C("MalformedPerRfc", (d.res = "err" /\ d.why = "malformed") => e.res = "err")
           /\ C("SameVerdictBothApis", e.pres = e.res /\ e.same)
           /\ IF e.res = "err" THEN C("FormError", e.formerr)
              ELSE /\ C("ConsumedExactly", e.cons = Len(b))
